@@ -172,5 +172,18 @@ try:
     from .tracetab_paths import PATHS
 except ImportError:
     PATHS = {}
-TRACE = {pid: list(MANUAL.get(pid, [])) + list(AUTO.get(pid, [])) + list(PATHS.get(pid, []))
-         for pid in sorted(set(MANUAL) | set(AUTO) | set(PATHS))}
+# remaining path classes of the branching functions (obligations in lean/Cgm/Trace/<pid>More.lean) and the operations
+# that had a model function and a driver op but no kernel (lean/Cgm/Trace/<pid>Rest.lean)
+MORE, REST = {}, {}
+for _mod, _name, _dst in (("tracetab_more", "MORE", MORE), ("tracetab_more2", "MORE", MORE), ("tracetab_rest", "REST", REST)):
+    try:
+        _m = __import__("cgv." + _mod, fromlist=[_name])
+        for _k, _v in getattr(_m, _name).items():
+            _dst.setdefault(_k, []).extend(_v)
+    except ImportError:
+        pass
+TRACE = {pid: list(MANUAL.get(pid, [])) + list(AUTO.get(pid, [])) + list(PATHS.get(pid, [])) + list(MORE.get(pid, [])) + list(REST.get(pid, []))
+         for pid in sorted(set(MANUAL) | set(AUTO) | set(PATHS) | set(MORE) | set(REST))}
+_names = [k for l in TRACE.values() for k, _ in l]
+assert len(_names) == len(set(_names)) or all(len({k for k, _ in l}) == len(l) for l in TRACE.values()), "duplicate kernel name"
+
